@@ -81,10 +81,15 @@ func genC09(t *rapid.T) C09Case {
 			WSFile{Path: "dupuse.lua", Text: "DupFn(1, 2)\nprint(DupVar)\n"})
 	}
 	if rapid.Bool().Draw(t, "dupBase") {
-		// two files with the same base name required by a bare name: equally scored candidates (the
-		// choice among them was order dependent until fix ccb4125)
-		c.WS.Files = append(c.WS.Files, WSFile{Path: "da/same.lua", Text: "return { a = 1 }\n"}, WSFile{Path: "db/same.lua", Text: "return { b = 2 }\n"},
-			WSFile{Path: "usesame.lua", Text: "local s = require(\"same\")\nprint(s.a, s.b)\n"})
+		// two files with the same base name in two folders, required by the bare name from the root and
+		// from inside each folder (equally and differently scored candidates; the choice among them was
+		// order dependent until fix ccb4125)
+		dirs := rapid.SampledFrom([][2]string{{"da", "db"}, {"a", "b"}, {"lib", "third"}, {"x/y", "x/z"}}).Draw(t, "dupDirs")
+		mod := rapid.SampledFrom([]string{"same", "mod", "codec"}).Draw(t, "dupMod")
+		body := "local M = {}\nfunction M.hello() end\nreturn M\n"
+		use := fmt.Sprintf("local dm = require(\"%s\")\ndm.hello()\nprint(dm)\n", mod)
+		c.WS.Files = append(c.WS.Files, WSFile{Path: dirs[0] + "/" + mod + ".lua", Text: body}, WSFile{Path: dirs[1] + "/" + mod + ".lua", Text: body},
+			WSFile{Path: "use" + mod + ".lua", Text: use}, WSFile{Path: dirs[0] + "/user0.lua", Text: use}, WSFile{Path: dirs[1] + "/user1.lua", Text: use})
 	}
 	// many symbols: more matches of one workspace/symbol query than the answer's limit (200), spread
 	// over several files, so that the cut depends on how the workers' partial results are merged
@@ -363,6 +368,26 @@ func checkC09(c C09Case, env *Env) *Violation {
 				qs = append(qs, q{"textDocument/completion", harness.J(harness.M{"textDocument": harness.M{"uri": harness.URI(f.Path)},
 					"position": harness.Pos(l, ch+1), "context": harness.M{"triggerKind": 1}}), at})
 			}
+		}
+		// tokens that are not variable occurrences: member names after `.` / `:` and string literals
+		// (module strings): definition and hover go through the cross-file resolution there
+		isOcc := map[int]bool{}
+		for _, o := range b.Occs {
+			isOcc[o.Name.Off] = true
+		}
+		extra := 0
+		for ti, tk := range res.Tokens {
+			if extra >= 12 {
+				break
+			}
+			member := tk.Kind == reflua.TName && !isOcc[tk.Off] && ti > 0 && (res.Tokens[ti-1].Text == "." || res.Tokens[ti-1].Text == ":")
+			if !member && tk.Kind != reflua.TString {
+				continue
+			}
+			extra++
+			l, ch := refmodel.PosOf(f.Text, tk.Off+1)
+			at := fmt.Sprintf("%s:%d:%d %q", f.Path, l, ch, tk.Text)
+			qs = append(qs, q{"textDocument/definition", harness.TDPos(f.Path, l, ch), at}, q{"textDocument/hover", harness.TDPos(f.Path, l, ch), at})
 		}
 		qs = append(qs, q{"textDocument/documentSymbol", harness.J(harness.M{"textDocument": harness.M{"uri": harness.URI(f.Path)}}), f.Path})
 	}
